@@ -262,3 +262,12 @@ func (s *SlowStorage) GetRouter(ip netip.Addr) (*storage.StoredRouter, error) {
 	}
 	return s.Storage.GetRouter(ip)
 }
+
+// Rekey makes router `in` set up new end-to-end keys with peer the way the real router gets there: it has lost its
+// keys for that peer (a restart, or a "no encryption keys" error ping), any pending hello state has expired, and
+// its next packet for the peer calls HelloPing.Send. (Send itself does nothing for a peer whose session is set up.)
+func Rekey(in *Instance, peer netip.Addr) (<-chan struct{}, error) {
+	in.RouterV.HelloPing.VerifExpireHello(peer)
+	_ = in.StateV.SetEncryptionSession(peer, nil)
+	return in.RouterV.HelloPing.Send(peer)
+}
